@@ -1277,6 +1277,15 @@ def check_item(item):
 
 
 # ---------------------------------------------------------------------------------------------------
+EXPLICIT = [
+    ("pseudocolumn-named-column", "SELECT * FROM emp", "snowflake", {"emp": {"id": "int", "level": "int", "name": "text"}}, ["ID", "LEVEL", "NAME"]),
+    ("pseudocolumn-named-column", "SELECT emp.* FROM emp", "snowflake", {"emp": {"id": "int", "level": "int", "name": "text"}}, ["ID", "LEVEL", "NAME"]),
+    ("pseudocolumn-named-column", "WITH c AS (SELECT * FROM emp) SELECT * FROM c", "snowflake", {"emp": {"id": "int", "level": "int"}}, ["ID", "LEVEL"]),
+    ("pseudocolumn-named-column", "SELECT * FROM audit_log", "oracle", {"audit_log": {"object_id": "int", "action": "text"}}, ["OBJECT_ID", "ACTION"]),
+    ("pseudocolumn-named-column", "SELECT * FROM t", "postgres", {"t": {"level": "int", "rowid": "int", "a": "int"}}, ["level", "rowid", "a"]),
+]
+
+
 def run(tier, seed):
     sk, items, ident = items_for(tier)
     work = items + ident
@@ -1318,9 +1327,20 @@ def run(tier, seed):
             lst.append((simple, size, str(inp.get("sql", inp.get("name"))), inp.get("dialect", ""), what, inp))
             lst.sort(key=lambda x: x[:4])
             del lst[3:]
+    # explicit statements over schemas of their own: columns named like a dialect's pseudocolumns are ordinary columns of the
+    # schema (expected names are written in the dialect's normal form)
+    for fam, sql, d, schema, expected in EXPLICIT:
+        st, viol, nq, nn = check_sql(sql, d, schema, list(expected), None, True, fam, True)
+        calls["sqlglot.optimizer.qualify.qualify"] += nq
+        evals += st != "unparsed"
+        for key, what in viol:
+            inp = {"kind": "qualify", "sql": sql, "dialect": d, "schema": schema, "expected_names": list(expected), "alt_expected_names": None,
+                   "top_star": True, "all_tables_known": True, "family": fam, "mode": [0, "explicit"], "spelling": ["lower"] * 4}
+            counts[key] = counts.get(key, 0) + 1
+            by_key.setdefault(key, []).append((0, len(sql), sql, d, what, inp))
     violations = []
     for key in sorted(by_key):
-        for _, _, _, _, what, inp in by_key[key]:
+        for _, _, _, _, what, inp in by_key[key][:3]:
             violations.append({"key": key, "what": what, "input": inp, "count": counts[key]})
     ds = qualify_dialects()
     return {
